@@ -218,7 +218,55 @@ func checkC07(w *World, r *Report) {
 				}
 			}
 			if strings.HasSuffix(anchor, "ByDenoms") {
-				ok = ok && o.HasPath("MsgMoveAvailableVestingByDenoms.Denoms") && o.HasOp("types.Coins.AmountOf")
+				// the requested denominations select what is taken from the locked coins: by data (AmountOf(denom))
+				// or by control (a coin of the locked set is kept under a test that involves msg.Denoms)
+				sel := o.HasPath("MsgMoveAvailableVestingByDenoms.Denoms")
+				if !sel {
+					var blocks []*ssa.BasicBlock
+					for c := range o.Calls {
+						if c.Parent() == h {
+							blocks = append(blocks, c.Block())
+						}
+					}
+					for phi := range o.Phis {
+						if phi.Parent() == h {
+							blocks = append(blocks, phi.Block().Preds...)
+						}
+					}
+					for _, b0 := range blocks {
+						for b := b0; b != nil; b = b.Idom() {
+							i := blockIf(b)
+							if i == nil {
+								continue
+							}
+							// a test of a validation error is not a selection
+							if base, _ := stripNot(i.Cond); base != nil {
+								if bo, isB := base.(*ssa.BinOp); isB && (isErrorType(bo.X.Type()) || isErrorType(bo.Y.Type())) {
+									continue
+								}
+							}
+							if tr.Origins(i.Cond).HasPath("MsgMoveAvailableVestingByDenoms.Denoms") {
+								sel = true
+							}
+						}
+					}
+				}
+				ok = ok && sel
+				// a binary search needs a sorted slice: the message's list is in the sender's order
+				for fn := range cg.Reach([]*ssa.Function{h}) {
+					for _, bs := range cg.Sites[fn] {
+						n := bs.CalleeName()
+						if hasSuffixAny(n, "sort.SearchStrings", "sort.Search", "sort.SearchInts", "slices.BinarySearch", "slices.BinarySearchFunc", "sort.Find") {
+							sorted := false
+							for _, ss := range cg.Sites[fn] {
+								if hasSuffixAny(ss.CalleeName(), "sort.Strings", "sort.Sort", "sort.Slice", "sort.SliceStable", "slices.Sort", "slices.SortFunc") && ss.Instr.Block().Dominates(bs.Instr.Block()) {
+									sorted = true
+								}
+							}
+							r.Check(sorted, "C07.move", funcName(fn)+": binary search over a list sorted beforehand", w.Pos(bs.Instr.Pos()), "a sort of the list dominates the search", "a binary search is applied to a list that nothing sorts (the denominations come in the sender's order): denominations listed out of order are silently not moved")
+						}
+					}
+				}
 			} else {
 				ok = ok && amt == ssa.Value(lcs0(lcs))
 			}
